@@ -57,7 +57,8 @@ COMPONENTS = {
     "real": ["the 21 import scripts as subprocesses", "src/utilities/import_utilities.py", "pandas / openpyxl / numpy readers and "
              "writers", "GitPython repo discovery", "the file system of the scratch copy"],
     "simulated": ["run order", "crash points (torn output files)", "stale / garbage leftovers in processed_data/",
-                  "process environment (PYTHONHASHSEED, TZ, LC_ALL)"],
+                  "process environment (PYTHONHASHSEED, TZ, LC_ALL; a preferred text encoding that is not UTF-8; GIT_DIR "
+                  "exported and naming another, empty repository)"],
     "stub": [],
 }
 # cost: one pass ~22 s of one core; histories run in parallel (one forked worker each), the
@@ -106,11 +107,21 @@ def prepare():
 def _env(rng):
     if rng.chance(0.25):
         return dict(DEFAULT_ENV)
-    return {
+    e = {
         "PYTHONHASHSEED": rng.pick(["0", "1", "12345", str(rng.randrange(2 ** 32))]),
         "TZ": rng.pick(["UTC", "Pacific/Kiritimati", "America/St_Johns", "Asia/Kathmandu"]),
         "LC_ALL": rng.pick(["C", "C.UTF-8", "POSIX"]),
     }
+    x = rng.sub("more")
+    if x.chance(0.3):
+        # a process whose preferred text encoding is NOT UTF-8 (plain C locale, no coercion, no UTF-8 mode): whatever
+        # decodes the raw tables with the locale's encoding instead of the files' own meets "Mate" with an accent
+        e.update({"LC_ALL": "C", "PYTHONCOERCECLOCALE": "0", "PYTHONUTF8": "0"})
+    if x.chance(0.3):
+        # git exports GIT_DIR to hooks and to commands run by rebase --exec / bisect run: here it names ANOTHER, empty
+        # repository (created by the scratch copy next to itself); the scripts must keep using the one they stand in
+        e["GIT_DIR"] = "@decoy"
+    return e
 
 
 def _crash(rng):
